@@ -174,6 +174,18 @@ fn c20() {
     }
 }
 
+fn c20_3() {
+    // F-C20-3: a pattern that consists only of a trailing separator exports an empty url-filter
+    for rule in ["^$script", "*^$script", "^", "ads^$script"] {
+        let mut fs = FilterSet::new(true);
+        fs.add_filters(&[rule], ParseOptions::default());
+        let (rules, used) = fs.into_content_blocking().unwrap();
+        let js = serde_json::to_string(&rules).unwrap();
+        let empty = js.contains("\"url-filter\":\"\"");
+        println!("C20_3 rule {rule}: converted={} empty-url-filter={} (expected false)", used.len(), empty);
+    }
+}
+
 fn main() {
     std::panic::set_hook(Box::new(|_| {}));
     let which: Vec<String> = std::env::args().skip(1).collect();
@@ -191,4 +203,5 @@ fn main() {
     if want("c07") { c07(); }
     if want("c10_1") { c10_1(); }
     if want("c20") { c20(); }
+    if want("c20_3") { c20_3(); }
 }
